@@ -117,6 +117,12 @@ def _balanced_case(c):
     if len(w) != len(G) or G != [float(p) for p in pts]:
         fails.append(fail("balanced_grid_points", "grid %r weights %d given %r" % (G, len(w), pts), key))
         return fails, []
+    # asking the same object again (and a third time) must give the same weights
+    for n in (2, 3):
+        wn = [float(x) for x in g.get_weights()]
+        if len(wn) != len(w) or any(not (abs(x - y) <= 1e-14 * max(1.0, abs(y))) for x, y in zip(wn, w)):
+            fails.append(fail("repeated_query_changes_weights", "points %r: get_weights() call no. %d returns %r, the first call %r" % (pts, n, wn[:5], w[:5]), key))
+            break
     sc = max(1.0, abs(a), abs(b))
     s0 = sum(w)
     s1 = sum(wi * p for wi, p in zip(w, G))
@@ -171,6 +177,10 @@ def _objreuse_case(c):
         for step, (pts, lv) in enumerate(c["sequence"]):
             g.set_grid(list(pts), list(lv))
             w1 = [float(x) for x in g.get_weights()]
+            w1b = [float(x) for x in g.get_weights()]          # the same request twice on one object
+            if len(w1b) != len(w1) or any(not (abs(x - y) <= 1e-14 * max(1.0, abs(y))) for x, y in zip(w1b, w1)):
+                fails.append(fail("repeated_query_changes_weights", "variant %r step %d points %r: second get_weights() %r, first %r" % ((str(sg), fb), step, pts, w1b[:5], w1[:5]), key))
+                return fails, [step]
             G1 = [float(x) for x in g.get_grid()]
             f = make()
             f.set_grid(list(pts), list(lv))
